@@ -109,3 +109,11 @@ def classes(r):
 def nontrivial(r):
     cl = classes(r)
     return "query:some" in cl or any(c.startswith("once:") and c.split(":")[2] not in ("set", "none") for c in cl)
+
+
+# ---- asyncio share ("in both front ends")
+from .. import aiomix  # noqa: E402
+from . import c18 as _c18  # noqa: E402
+
+aiomix.install(globals(), 0.25, lambda rng: aiomix.stream(rng, _c18.scenarios, tweak=aiomix.c12_tweak), aiomix.c12_specs,
+               note="once() tags as set/frozenset/list/tuple/generator/dict keys, get_jobs / delete_jobs queries between runs, caller-side mutation of passed and returned tag sets; Spec: selection recomputed from the original tags")
